@@ -541,12 +541,11 @@ Proof.
          (fun c => if (c <? 2) then [OUpdateWS 21 0 104] else []),
          [(0, SBegin); (1, SBegin); (0, SAttempt); (1, SAttempt); (0, SCas); (1, SCas)].
   intros H.
-  assert (E : g_log (fold_left (step_lockhash {| w_parents := []; w_root := []; w_ws := [] |})
-                [(0, SBegin); (1, SBegin); (0, SAttempt); (1, SAttempt); (0, SCas); (1, SCas)]
-                (init [(10, 1)] (fun c => if (c <? 2) then [OUpdateWS 21 0 104] else [])))
-              = [(0, OUpdateWS 21 0 104); (1, OUpdateWS 21 0 104)]).
-  { vm_compute. reflexivity. }
-  rewrite E in H.
+  match type of H with
+  | all_ok _ _ ?l =>
+    assert (E : l = [(0, OUpdateWS 21 0 104); (1, OUpdateWS 21 0 104)]) by (vm_compute; reflexivity);
+    rewrite E in H
+  end.
   specialize (H [(0, OUpdateWS 21 0 104)] 1 (OUpdateWS 21 0 104) [] eq_refl).
   vm_compute in H. discriminate.
 Qed.
